@@ -447,9 +447,14 @@ type replayCase struct {
 func TestCheck(t *testing.T) {
 	vfw.Main(t, "C08", func(c *vfw.Ctx) {
 		c.Level("model_checking")
-		c.Rule("E2 tree search: every history of peer frames of length <= D (quick 3/4, thorough 4/5) over an 18-symbol alphabet {the local application starting a reply-expected send that stays open (the prescribed answers must not depend on it), Select/Deselect/Linktest/Separate.req, orphan Select/Deselect/Linktest.rsp, answer to the library's own Select.req, orphan Reject.req, data primary/secondary/foreign-session, PType!=0, undefined SType, control frame with body, second TCP connect / reconnect} replayed on a fresh real hsmsss connection per history (synctest bubble, in-memory network), every step compared with the SEMI E37 reference responder (exact frames FIFO, State(), handler deliveries, connection liveness); plus depth-1: every SType 0..255 x PType {0,1,255} x body {0,1} that is malformed, in selected and not-selected base states; configurations passive/active(after select, during select) x equip/host x session-id validation. state = history prefix (a live connection cannot be cloned), non-trivial = history length >= 1")
+		c.Rule("E2 tree search: every history of peer frames of length <= D (quick 3/4, thorough 4/5) over an 18-symbol alphabet {the local application starting a reply-expected send that stays open (the prescribed answers must not depend on it), Select/Deselect/Linktest/Separate.req, orphan Select/Deselect/Linktest.rsp, answer to the library's own Select.req, orphan Reject.req, data primary/secondary/foreign-session, PType!=0, undefined SType, control frame with body, second TCP connect / reconnect} replayed on a fresh real hsmsss connection per history (synctest bubble, in-memory network), every step compared with the SEMI E37 reference responder (exact frames FIFO, State(), handler deliveries, connection liveness); plus depth-1: every SType 0..255 x PType {0,1,255} x body {0,1} that is malformed, in selected and not-selected base states; configurations passive/active(after select, during select) x equip/host x session-id validation; plus bursts: N in {3,64,65,66,200} (thorough up to 1000; 64 = default depth of the send queue) Linktest.req / undefined-SType / PType!=0 frames in ONE segment at a Selected library (peer reading, or its window closed while they arrive): exactly N answers (Linktest.rsp / Reject.req reason 1 / 2) in arrival order each echoing its own system bytes, link and state unchanged. state = history prefix (a live connection cannot be cloned), non-trivial = history length >= 1")
 		c.Assume("testing/synctest virtual time and durable-blocking detection", "sim in-memory network", "reference responder written from SEMI E37/E37.1 tables", "library-generated system bytes modelled as one per-connection counter starting at 1")
 		if c.Replay != nil {
+			var bc burstCase
+			if err := json.Unmarshal(c.Replay, &bc); err == nil && bc.Burst {
+				oneBurst(c, t, bc)
+				return
+			}
 			var rc replayCase
 			if err := json.Unmarshal(c.Replay, &rc); err != nil {
 				c.HarnessError("bad replay: %v", err)
@@ -467,6 +472,7 @@ func TestCheck(t *testing.T) {
 			cfgs = append(cfgs, config{Active: true, Validate: true, Equip: true}, config{Active: false, Equip: true}, config{Active: false, Validate: true})
 			depth = append(depth, 4, 4, 4)
 		}
+		partBurst(c, t)
 		for ci, cfg := range cfgs {
 			// depth-1 malformed family in two base states
 			for _, base := range [][]event{nil, {{Kind: "select.req"}}} {
